@@ -187,7 +187,10 @@ def constant_parity(check: Check, repo: Repo) -> None:
         construct = f"{rel}::{cname}"
         check.count("compiled_constant_pairs")
         if not int_side:
-            raise AnalysisError(f"{construct}: generate() emits a compiled pattern but no re.compile is found on the interpreter side")
+            # nothing to compare text against; the semantic rules (C12 TERM-SEM, C01 DIFF) still decide what they
+            # cover, so this is reported at the end and does not hide their findings
+            check.defer_error(f"{construct}: generate() emits a compiled pattern but no re.compile is found on the interpreter side (CONST-PARITY cannot compare)")
+            continue
         gp, gf = gen_side[0]
         ok_pat = any(gp == ip for ip, _ in int_side)
         check.oblige("CONST-PARITY", construct, "same pattern expression on both sides" if ok_pat else "pattern expression differs between parse() and generate()", ok_pat,
